@@ -564,6 +564,86 @@ func (r *runner) scenarioF1(ctx sdk.Context) error {
 	return nil
 }
 
+// ---------- positions that share exactly one bound with a live position ----------
+
+// sharedOneBound returns the positions of p that can be closed such that exactly one of their two
+// boundary ticks stays in use by another open position (the other one becomes empty): the case in
+// which DecreaseLiquidity has to remove one tick record and keep the other.
+func (r *runner) sharedOneBound(ctx sdk.Context, p amm.PoolInfo) []lptypes.Position {
+	poss := r.w.C02Positions(ctx, p)
+	var out []lptypes.Position
+	for i, q := range poss {
+		lo, up := false, false
+		for j, o := range poss {
+			if i == j {
+				continue
+			}
+			if o.LowerTick == q.LowerTick || o.UpperTick == q.LowerTick {
+				lo = true
+			}
+			if o.LowerTick == q.UpperTick || o.UpperTick == q.UpperTick {
+				up = true
+			}
+		}
+		if lo != up {
+			out = append(out, q)
+		}
+	}
+	return out
+}
+
+// closeSharedBound: if some position shares exactly one bound, close it completely (committed) and
+// trade across the shared tick in both directions (sizes from what the pool holds).
+func (r *runner) closeSharedBound(ctx sdk.Context, p amm.PoolInfo) bool {
+	cands := r.sharedOneBound(ctx, p)
+	if len(cands) == 0 {
+		return false
+	}
+	q := cands[r.w.R.Intn(len(cands))]
+	r.commit(ctx, p, amm.Op{Kind: "decrease", Sender: r.w.C02UserIndex(q.Address), Pid: q.Id, Liq: amm.C02Raw(q.Liquidity), Tag: "close-shared-bound"})
+	r.st.Count("closed-position-sharing-one-bound")
+	r.st.Nontriv(fmt.Sprintf("shared-bound/%d/%d/%d", p.ID, q.LowerTick, q.UpperTick))
+	for d := 0; d < 2; d++ {
+		bal := r.w.H.Bal(ctx, lptypes.NewPoolAddress(p.ID), p.Denoms[d]).BigInt()
+		amt := new(big.Int).Div(bal, big.NewInt(int64(2+r.w.R.Intn(3))))
+		if amt.Sign() > 0 {
+			r.commit(ctx, p, swapOp(3, false, 1-d, amt, "swap-after-close-shared-bound"))
+		}
+	}
+	return true
+}
+
+// adjacent and nested positions with one common bound around a wide one; a position whose lower bound
+// is shared is closed and the price is driven up over that tick, then one whose upper bound is shared
+// and the price is driven down over it; the remaining providers exit in every order
+func (r *runner) scenarioSharedBound(ctx sdk.Context, maxOrders int) error {
+	p, err := r.w.CreatePool("uatom", "uusdc", "0.003", "1.0001", "0")
+	if err != nil {
+		return err
+	}
+	r.commit(ctx, p, create(0, -300, 300, bi("10000000"), bi("10000000"), "shared/wide"))
+	r.commit(ctx, p, create(1, -50, 50, bi("4000000"), bi("4000000"), "shared/A"))
+	r.commit(ctx, p, create(2, 50, 150, bi("3000000"), bi("0"), "shared/B-adjacent-above-A"))
+	r.commit(ctx, p, create(2, -120, -50, bi("0"), bi("3000000"), "shared/D-adjacent-below-A"))
+	r.commit(ctx, p, create(1, -50, 20, bi("500000"), bi("700000"), "shared/C-nested-common-lower"))
+	closeTag := func(tag string, lo, up int64) {
+		for _, q := range r.w.C02Positions(ctx, p) {
+			if q.LowerTick == lo && q.UpperTick == up {
+				r.commit(ctx, p, amm.Op{Kind: "decrease", Sender: r.w.C02UserIndex(q.Address), Pid: q.Id, Liq: amm.C02Raw(q.Liquidity), Tag: tag})
+				r.st.Count("closed-position-sharing-one-bound")
+				r.st.Nontriv(fmt.Sprintf("shared-bound/%d/%d/%d", p.ID, lo, up))
+			}
+		}
+	}
+	closeTag("shared/close-B-lower-still-used", 50, 150) // tick 150 empties, tick 50 must stay
+	r.commit(ctx, p, swapOp(3, true, 1, bi("9000000"), "shared/swap-up-across-50"))
+	closeTag("shared/close-D-upper-still-used", -120, -50) // tick -120 empties, tick -50 must stay
+	r.commit(ctx, p, swapOp(3, true, 0, bi("20000000"), "shared/swap-down-across-50-and-minus-50"))
+	r.commit(ctx, p, swapOp(3, true, 1, bi("6000000"), "shared/swap-back-up"))
+	r.drainPool(ctx, p, 4, maxOrders, "shared")
+	return nil
+}
+
 // adjacent ranges, then take (almost) everything the pool holds on one side, then drain
 func (r *runner) scenarioExhaust(ctx sdk.Context, maxOrders int) error {
 	p, err := r.w.CreatePool("uusdc", "uatom", "0.01", "1.001", "0")
@@ -602,6 +682,13 @@ func Run(seed int64, n int, outDir string) error {
 		return err
 	}
 	if err := r.scenarioF1(ctx); err != nil {
+		return err
+	}
+	sharedOrders := 3
+	if thorough {
+		sharedOrders = 6
+	}
+	if err := r.scenarioSharedBound(ctx, sharedOrders); err != nil {
 		return err
 	}
 	extremes := [][3]string{
@@ -668,6 +755,23 @@ func Run(seed int64, n int, outDir string) error {
 			pool, _, _ := w.K.GetPool(ctx, p.ID)
 			a, b := int64(1+w.R.Intn(int(p.C02Span()))), int64(1+w.R.Intn(int(p.C02Span())))
 			r.commit(ctx, p, create(w.R.Intn(3), pool.CurrentTick-a, pool.CurrentTick+b, w.R.LogUniform(30), w.R.LogUniform(30), "create-1-to-1e30"))
+		case w.R.Chance(1, 10) && r.closeSharedBound(ctx, p):
+			// done: closed a position sharing exactly one bound and traded across the shared tick
+		case w.R.Chance(1, 9) && len(w.C02Positions(ctx, p)) > 0 && len(r.sharedOneBound(ctx, p)) == 0:
+			// make one: a position adjacent to (or with one bound in common with) an existing one
+			poss := w.C02Positions(ctx, p)
+			q := poss[w.R.Intn(len(poss))]
+			b := int64(1 + w.R.Intn(int(p.C02Span())))
+			lo, up, tag := q.UpperTick, q.UpperTick+b, "adjacent-above"
+			switch w.R.Intn(4) {
+			case 1:
+				lo, up, tag = q.LowerTick-b, q.LowerTick, "adjacent-below"
+			case 2:
+				lo, up, tag = q.LowerTick, q.LowerTick+(q.UpperTick-q.LowerTick+1)/2, "common-lower"
+			case 3:
+				lo, up, tag = q.UpperTick-(q.UpperTick-q.LowerTick+1)/2, q.UpperTick, "common-upper"
+			}
+			r.commit(ctx, p, create(w.R.Intn(3), lo, up, w.R.LogUniform(20), w.R.LogUniform(20), "one-common-bound/"+tag))
 		case w.R.Chance(1, 40) && len(w.C02Positions(ctx, p)) > 0:
 			r.takeAlmostAll(ctx, p, 3, w.R.Intn(2))
 		case w.R.Chance(1, 45) && len(w.C02Positions(ctx, p)) > 0:
